@@ -85,6 +85,12 @@ def ops : List (String × (List String → String)) := [
       | some fs => okStr (ledgerCsvRow fs)
       | none => "err\tbad-op"
     | _ => "err\tbad-op"),
+  ("emit.csvrecord", fun
+    | [a] => match decList? a with
+      | some fs => okStr (ledgerCsvRecord fs)
+      | none => "err\tbad-op"
+    | _ => "err\tbad-op"),
+  ("emit.join", unary joinLines),
   ("emit.csvrowrfc", fun
     | [a] => match decList? a with
       | some fs => okStr (csvRowRfc fs)
